@@ -251,15 +251,16 @@ fn gen_c04(sink: &mut Sink, tier: &str, seed: u64) {
     let mut rng = StdRng::seed_from_u64(seed ^ 0xc04);
     let n = if tier == "thorough" { 30000 } else { 2500 };
     const ACCS: &[&str] = &["u8","u16","u32","u64","i8","i16","i32","i64","int","char","bool","null","undefined","simple","f16","f32","f64",
-                            "bytes","str","bytes_iter","str_iter","array","map","tag","datatype","array_iter","map_iter"];
+                            "bytes","str","bytes_iter","str_iter","array","map","tag","datatype","array_iter","map_iter","array_iter_with","map_iter_with"];
     for i in 0..n {
         let o = Opts { max_depth: 8, max_nodes: if i % 10 == 0 { 200 } else { 12 }, bad_utf8: i % 6 == 0, ..Opts::default() };
         let it = gen_item(&mut rng, &o);
         sink.distinct_inputs += 1;
         let b = crate::abs::bytes(&it);
         for a in ACCS { sink.call("acc", a, &json!({"buf": b, "pos": 0})) }
+        { let a = ACCS[rng.gen_range(0..ACCS.len())]; sink.call("probe", a, &json!({"buf": b, "pos": 0})); }
         // somewhere inside
-        for _ in 0..2 { let p = rng.gen_range(0..=it.len()); let a = ACCS[rng.gen_range(0..ACCS.len())]; sink.call("acc", a, &json!({"buf": b, "pos": p})); }
+        for k in 0..3 { let p = rng.gen_range(0..=it.len()); let a = ACCS[rng.gen_range(0..ACCS.len())]; sink.call(if k == 2 { "probe" } else { "acc" }, a, &json!({"buf": b, "pos": p})); }
         // strict prefixes: all for 1 in 50 small items, else one
         if i % 50 == 0 && it.len() <= 40 { for cut in 0..it.len() { let pb = crate::abs::bytes(&it[..cut]); for a in ACCS { sink.call("acc", a, &json!({"buf": pb, "pos": 0})) } } }
         else { let cut = rng.gen_range(0..it.len()); let pb = crate::abs::bytes(&it[..cut]); for a in ACCS { sink.call("acc", a, &json!({"buf": pb, "pos": 0})) } }
